@@ -3,7 +3,7 @@
 (* sums of squares).  A BigNat is a sequence of limbs base 10^4, least       *)
 (* significant first, without high zero limbs (<<>> = 0).  Decimal fractions *)
 (* are pairs [num |-> BigNat, scale |-> k] meaning num / 10^k.               *)
-EXTENDS Integers, Sequences
+EXTENDS Integers, Sequences, TLC
 
 B == 10000
 
@@ -56,6 +56,19 @@ Mul(a, b) == IF a = <<>> \/ b = <<>> THEN <<>> ELSE Norm(MulAcc(a, b, 1))
 
 RECURSIVE Pow10(_)
 Pow10(k) == IF k = 0 THEN <<1>> ELSE IF k >= 4 THEN ShiftL(Pow10(k - 4), 1) ELSE MulSmall(Pow10(k - 1), 10)
+
+(* decimal text of a BigNat *)
+P4(n) == IF n < 10 THEN "000" \o ToString(n) ELSE IF n < 100 THEN "00" \o ToString(n)
+         ELSE IF n < 1000 THEN "0" \o ToString(n) ELSE ToString(n)
+RECURSIVE LowLimbs(_, _)
+LowLimbs(a, i) == IF i = 0 THEN "" ELSE P4(a[i]) \o LowLimbs(a, i - 1)
+DecStr(a) == IF a = <<>> THEN "0" ELSE ToString(a[Len(a)]) \o LowLimbs(a, Len(a) - 1)
+RECURSIVE Pow(_, _)
+Pow(b, e) == IF e = 0 THEN <<1>> ELSE MulSmall(Pow(b, e - 1), b)       \* b < 10^4
+(* a \div k for 1 <= k < 10^4 *)
+RECURSIVE DivSC(_, _, _, _)
+DivSC(a, k, i, rem) == IF i = 0 THEN <<>> ELSE LET cur == rem * B + a[i] IN DivSC(a, k, i - 1, cur % k) \o <<cur \div k>>
+DivSmall(a, k) == Norm(DivSC(a, k, Len(a), 0))
 
 RECURSIVE SumSeq(_)
 SumSeq(s) == IF s = <<>> THEN <<>> ELSE Add(s[1], SumSeq(Tail(s)))
